@@ -164,6 +164,16 @@ def main():
                         known.append((o, f))
                 continue
             replay = build_replay(scratch, prop, o, r, raw, args)
+            if o.backend == "verus" and replay.get("paired_kani_status") == "ok":
+                # The proof no longer goes through, but the paired harness - the same clauses checked by CBMC on the
+                # real (un-extracted) function for small sizes - still passes: the proof has to be re-done for the
+                # changed code. That is "undecided", not an alarm (a refactoring that keeps the behaviour must never
+                # be reported as a violation).
+                r["status"] = "undecided"
+                r["reason"] = ("verus proof of %s no longer verifies, but the paired bounded Kani obligation %s still holds on "
+                               "the real function: proof needs re-doing (see %s)" % (o.harness, o.extra.get("pair"), replay["path"]))
+                undecided.append(o)
+                continue
             violations.append((o, replay))
     finally:
         if args.keep_scratch:
